@@ -26,8 +26,8 @@ BUDGET = {"quick": 50, "thorough": 420}
 RULE = "index k -> one routing cell + request sequence. Non-trivial = proxy involved with TLS or a refusal/close; distinct = distinct cell tuple."
 ASSUMPTIONS = ["a garbage CONNECT reply is not a status-coded refusal: any urllib3 error with an empty origin log is accepted there"]
 REQUIRED_PROBES = {
-    "quick": ["tunnel_ok", "forward_ok", "forward_https_optin", "optin_flag_without_effect", "prelude_forwarded_with_same_headers_object", "retunnel_refused_proxy_error", "connect_refused_no_leak", "proxy_cert_bad_no_leak", "origin_cert_bad_no_request", "retunnelled_after_close", "ipv6_connect_bracketed", "tls_in_tls", "proxy_headers_kept_out_of_tunnel"],
-    "thorough": ["tunnel_ok", "forward_ok", "forward_https_optin", "optin_flag_without_effect", "prelude_forwarded_with_same_headers_object", "retunnel_refused_proxy_error", "connect_refused_no_leak", "proxy_cert_bad_no_leak", "origin_cert_bad_no_request", "retunnelled_after_close", "ipv6_connect_bracketed", "tls_in_tls", "proxy_headers_kept_out_of_tunnel"],
+    "quick": ["tunnel_ok", "forward_ok", "forward_https_optin", "optin_flag_without_effect", "prelude_forwarded_with_same_headers_object", "retunnel_refused_proxy_error", "shared_context_for_proxy_and_destination", "connect_refused_no_leak", "proxy_cert_bad_no_leak", "origin_cert_bad_no_request", "retunnelled_after_close", "ipv6_connect_bracketed", "tls_in_tls", "proxy_headers_kept_out_of_tunnel"],
+    "thorough": ["tunnel_ok", "forward_ok", "forward_https_optin", "optin_flag_without_effect", "prelude_forwarded_with_same_headers_object", "retunnel_refused_proxy_error", "shared_context_for_proxy_and_destination", "connect_refused_no_leak", "proxy_cert_bad_no_leak", "origin_cert_bad_no_request", "retunnelled_after_close", "ipv6_connect_bracketed", "tls_in_tls", "proxy_headers_kept_out_of_tunnel"],
 }
 
 DEST_HOSTS = {"name": "origin.test", "ip4": "10.0.0.5", "ip6": "[fd00::5]", "upper": "Origin.Test"}
@@ -56,6 +56,9 @@ def gen(rng):
         # a forwarded plain-http request through the same manager, made with the very same headers mapping, before the main sequence
         # ("redirect": that request is answered 302 -> the main URL, so the manager itself carries the mapping across schemes)
         "prelude_http": rng.choice([False, False, False, False, "plain", "redirect"]),
+        # one caller-built SSLContext serves both the proxy hop (with proxy_assert_hostname) and the tunnelled destination:
+        # what urllib3 switches on the context for the first handshake must not weaken the second
+        "shared_ctx": ps == "https" and ds == "https" and rng.random() < 0.35,
     }
     return {"property": ID, "cell": cell}
 
@@ -123,6 +126,14 @@ def run(sc: dict) -> Result:
         rh = {}
     with H.RunEnv(), H.quiet_warnings(), w:
         kw = dict(ca_certs=T.CA_GOOD, retries=False, timeout=3.0, proxy_headers=ph or None)
+        if c.get("shared_ctx"):
+            from urllib3.util.ssl_ import create_urllib3_context
+
+            ctx_ = create_urllib3_context()
+            ctx_.load_verify_locations(T.CA_GOOD)
+            kw.pop("ca_certs")
+            kw.update(ssl_context=ctx_, proxy_ssl_context=ctx_, proxy_assert_hostname="proxy.test")
+            res.probes["shared_context_for_proxy_and_destination"] += 1
         if c["forwarding"]:
             kw["use_forwarding_for_https"] = True
         pm = urllib3.ProxyManager(proxy_url, **kw)
@@ -307,7 +318,7 @@ def _has_proxy_error(e) -> bool:
 
 
 def shrinks(sc):
-    simple = {"prelude_http": False, "proxy_scheme": "http", "dest_scheme": "https", "forwarding": False, "proxy_cert": "ok", "origin_cert": "ok", "connect": "200", "proxy_headers": [], "req_headers": [], "host": "name", "port": None, "nreq": 1, "close_between": "none"}
+    simple = {"shared_ctx": False, "prelude_http": False, "proxy_scheme": "http", "dest_scheme": "https", "forwarding": False, "proxy_cert": "ok", "origin_cert": "ok", "connect": "200", "proxy_headers": [], "req_headers": [], "host": "name", "port": None, "nreq": 1, "close_between": "none"}
     for k, v in simple.items():
         if sc["cell"].get(k, v) != v:
             c = copy.deepcopy(sc)
